@@ -7,14 +7,14 @@ BASE_NOTE = ("Trusted: Coq 8.16.1 kernel (+vm_compute for finite sweeps), ExtrOc
              "(differential, generated cases) and a regenerated constants file; ")
 CLAIMED = {
  "C01": dict(
-   text="Hand-written executable Gallina model of the whole optimisation pipeline (from_slice, all reductions incl. palette sorters, perform_reductions, evaluator, perform_trials, optimize_raw/png, output), replayed against the real code on every run under the recorded zlib oracle: byte-identical outputs, and no compressor call the model does not predict. Machine-checked theorems (Properties/C01.v): (1) per-pixel exactness of the sample mappings; (2) IMAGE LEVEL, every width/height/interlacing: 16->8, sub-byte expansion and reduction, RGB(A)->gray(A), alpha removal, ->indexed, indexed->channels, palette condensation, luma sort, palette reorders covering the used indices, Adam7 interlacing AND de-interlacing (the pass/row state machine of src/interlace.rs, bits and bytes variants) each keep a well-formed image at its meaning (Spec/Sem); PngImage::new's image means what the specification decodes from the IDAT stream (C01_parsed_image_means); (3) PIPELINE: perform_reductions keeps the baseline and every candidate, optimize_raw's choice, the filtered stream behind the emitted IDAT (all ten strategies) and finally the BYTES WRITTEN (decoded by the specification's whole-file decoder Spec/DecodeFile: strict container, IHDR, PLTE/tRNS, inflate, un-filtering, Adam7, colour) at the picture the input image means - for every option vector with the lossy switches off, every compressor, evaluator schedule and clock. Every image any reduction produces and every output file (also after 2-3 chained runs) is additionally decoded by the extracted specification and compared with the input at 16-bit RGBA.",
+   text="Hand-written executable Gallina model of the whole optimisation pipeline (from_slice, all reductions incl. palette sorters, perform_reductions, evaluator, perform_trials, optimize_raw/png, output), replayed against the real code on every run under the recorded zlib oracle: byte-identical outputs, and no compressor call the model does not predict. Machine-checked theorems (Properties/C01.v): (1) per-pixel exactness of the sample mappings; (2) IMAGE LEVEL, every width/height/interlacing: 16->8, sub-byte expansion and reduction, RGB(A)->gray(A), alpha removal, ->indexed, indexed->channels, palette condensation, luma sort, palette reorders covering the used indices, the two co-occurrence palette sorters mzeng and battiato (connectivity of the co-occurrence graph; vertex colouring with a history argument over the complete edge list), Adam7 interlacing AND de-interlacing (the pass/row state machine of src/interlace.rs, bits and bytes variants) each keep a well-formed image at its meaning (Spec/Sem); PngImage::new's image means what the specification decodes from the IDAT stream (C01_parsed_image_means); (3) PIPELINE: perform_reductions keeps the baseline and every candidate, optimize_raw's choice, the filtered stream behind the emitted IDAT (all ten strategies) and finally the BYTES WRITTEN (decoded by the specification's whole-file decoder Spec/DecodeFile: strict container, IHDR, PLTE/tRNS, inflate, un-filtering, Adam7, colour) at the picture the input image means; (4) FILE TO FILE: from_slice reads a valid datastream the way the specification's whole-file decoder does (C01_input_parse_means) and optimize_from_memory returns the input bytes or a serialisation that the specification decodes to the INPUT FILE's picture (C01_file_to_file_partial) - for every option vector with the lossy switches off, every compressor, evaluator schedule and clock. Nothing is assumed about the reductions. Every image any reduction produces and every output file (also after 2-3 chained runs) is additionally decoded by the extracted specification and compared with the input at 16-bit RGBA.",
    design="DESIGN.md §3 C01",
-   note=BASE_NOTE + "PARTIAL, named in the theorems: the record `leaves` (meaning-preservation of the mzeng/battiato sorters' re-indexing: their index list must contain every used index, a connectivity argument not yet formalised) and, for the file-level theorem, the zlib hypothesis inflate(deflate x)=x plus container side conditions (chunk payloads < 2^31, no ancillary chunk named IEND/PLTE/tRNS/IDAT, encodable header fields); the parse of the INPUT file into the image is by correspondence. These are decided per run by correspondence + specification oracle. zlib is an oracle (re-validated with Python zlib).",
+   note=BASE_NOTE + "Hypotheses named in the file-level theorems (hence the suffix _partial): the zlib oracle (inflate(deflate x)=x; the code's inflate is the specification's and returns bytes), container side conditions on what is written (chunk payloads < 2^31, no ancillary chunk named IEND/PLTE/tRNS/IDAT, encodable header fields) and validity of the input (one IHDR, at most one PLTE/tRNS, colour key within the sample range, size within usize). These are exercised per run by correspondence + specification oracle. zlib is an oracle (re-validated with Python zlib).",
    technique='Coq proof (image-level lifting theorems, finite byte tables by vm_compute over complete domains, pipeline invariant, filter/stream/file decode) + whole-pipeline model replay + extracted spec decoder as oracle'),
  "C03": dict(
    text='Machine-checked (Properties/C03.v): alpha-equivalence is an equivalence on pixels and pictures; IMAGE LEVEL (every size, interlaced or not): blackening of transparent pixels, alpha channel -> colour key with an unused colour, palette condensation with merged transparent entries and indexed->channels with alpha optimisation map a well-formed image that means pic to one that means an alpha-equivalent picture; PIPELINE: with alpha optimisation on or off every candidate of perform_reductions and the image optimize_raw chooses are alpha-equivalent to the input; FILTER STAGE (optimize_alpha inside filter_image, all five filter branches, line data threaded through the candidates of the heuristics): each rewritten scan line differs from the line only in the colour bytes of fully transparent pixels (C03_alpha_line), the stream filter_image writes with the optimisation on is decoded by the specification to an alpha-equivalent picture for all ten strategies and any Brute oracle (C03_filter_alpha_stream), and so is the stream compressed into the emitted IDAT (C03_emitted_stream_alpha_partial). The model is tied to the code differentially; every filtered stream and every --alpha output file is decoded by the extracted specification and must be alpha-equivalent to the input.',
    design="DESIGN.md §3 C03",
-   note=BASE_NOTE + 'PARTIAL: same `leaves` as C01 (mzeng/battiato coverage); the container around the IDAT content is by correspondence + oracle.',
+   note=BASE_NOTE + 'FILE TO FILE (C03_file_to_file_partial) under the hypotheses of C01 (zlib oracle, container and input side conditions); nothing is assumed about the reductions.',
    technique='Coq proof (relational lifting of alpha-equivalence, alpha_scan invariant, palette normalisation) + differential correspondence + spec oracle (alpha-equivalence)'),
  "C14": dict(
    text="Machine-checked (Properties/C14.v): the COMPLETE decision table of preprocess_chunks (what happens to the iCCP chunk and which switches are turned off) as an equation, and its corollaries in the words of the property: "
@@ -32,10 +32,10 @@ CLAIMED = {
    text="Machine-checked (Properties/C02.v): `output` is the signature followed by the serialisation of an explicit chunk sequence; the specification's strict container parser (lengths, CRC over type+data, IEND last, nothing after) "
         "accepts it and reads back exactly that sequence, for every PngData with well-formed chunk names; the sequence is IHDR(13 bytes from the header) … single IDAT … IEND with PLTE/tRNS synthesised from the header before IDAT; CRC-32 fits 32 bits; "
         "the specification's WHOLE-FILE decoder (Spec/DecodeFile.v) reads the written file as the inflated IDAT content under exactly the header and palette/key of the written image (C02_output_decodes); "
-        "the IDAT content of the emitted candidate is the compressor's answer for a stream that the specification cuts into exactly the rows the header implies, each with a filter type 0..4, and that un-filters to the image data (C02_idat_content_partial). "
+        "the IDAT content of the emitted candidate (no assumption about the reductions) is the compressor's answer for a stream that the specification cuts into exactly the rows the header implies, each with a filter type 0..4, and that un-filters to the image data (C02_idat_content_partial). "
         "Every output of every run (PNG, chunk-rich, APNG; all options incl. lossy, zopfli, force, strip) is validated by a strict validator written from the specification and decoded by the extracted spec; a constraint counts only if the input satisfied it.",
    design="DESIGN.md §3 C02",
-   note=BASE_NOTE + "PARTIAL: the IDAT-content theorem is under the record `leaves` of C01 and for runs without alpha rewriting; that inflate undoes the compressor is the zlib oracle assumption; the input-relative ordering constraints of ancillary chunks are decided per run by the validator oracle. "
+   note=BASE_NOTE + "PARTIAL: the IDAT-content theorem is stated for runs without alpha rewriting (with -a: C03_emitted_stream_alpha_partial); that inflate undoes the compressor is the zlib oracle assumption; the input-relative ordering constraints of ancillary chunks are decided per run by the validator oracle. "
         "F8 (hIST kept without PLTE) was repaired (fix 2fc6ac2).",
    technique="Coq proof (serialise/parse round trip by induction over the chunk list; CRC range via log2/lxor bounds) + strict validator oracle"),
  "C04": dict(
@@ -47,7 +47,7 @@ CLAIMED = {
    technique="Coq proof (case analysis on the final decision; strong induction on length for the fixed point) + model replay"),
  "C05": dict(
    text="Machine-checked (Properties/C05.v), with every Rust panic point an explicit Panic value of the model: the chunk walker terminates within its fuel and never panics for any byte string and policy; header parsing never panics and yields only legal colour-type/bit-depth pairs; "
-        "an image is decoded only if its size is below 1032 x (compressed bytes + 1) with non-zero dimensions, and the unfiltered data is no longer than that. "
+        "an image is decoded only if its size is below 1032 x (compressed bytes + 1) with non-zero dimensions, and the unfiltered data is no longer than that; raw_data_size is exactly min(specification's size, usize::MAX) (saturating arithmetic); un-filtering a stream of the implied size, PngImage::new and the WHOLE parser PngData::from_slice never panic, for every byte string below 2^54 bytes, policy and error-fixing flag, assuming only that the decompressor returns (C05_from_slice_no_panic). "
         "Runtime: isolated worker processes (catch_unwind, counting global allocator: largest single request and peak, RLIMIT_AS, watchdog) over every truncation, single-byte corruptions, chunk- and field-level edits of a structured corpus, hand-built absurd headers and raw tuples; debug and (thorough) release profile; outcome classes replayed on the model.",
    design="DESIGN.md §3 C05",
    note=BASE_NOTE + "PARTIAL: absence of Panic inside the reductions/filters for every accepted image and the peak of simultaneously live buffers are measured, not proved; memory safety of unsafe code and FFI is exercised only. Four genuine defects were repaired (fix commits 57dbdb7, e8d3884, 4d8f6d0, 0164411).",
@@ -83,10 +83,10 @@ CLAIMED = {
    technique="Coq proof (rewrite database of per-stage projection lemmas; finite case analysis) + regenerated manual constants + black-box CLI vs library differential"),
  "C10": dict(
    text="Machine-checked (Properties/C10.v): recompression preserves number, order and every fcTL field of the frames and replaces frame data only by strictly smaller data; fcTL serialisation/parsing are inverse on all fields; "
-        "sequence numbers written are consecutive; when the policy does not keep all of acTL/fcTL/fdAT they are all ignored (plain PNG). Generated APNGs (0..4 extra frames, split fdAT, default image in/out, sub-rectangles, all colour types, interlaced) x options: "
+        "sequence numbers written are consecutive; when the policy does not keep all of acTL/fcTL/fdAT they are all ignored (plain PNG); FRAME PIXELS: a frame's data is replaced only by the compression of a stream that the specification decodes - frame dimensions, the image's colour type, depth, interlacing - to the same picture (alpha-equivalent under -a), for all ten filter strategies and every subset of frames skipped by the clock (C10_frame_pixels). Generated APNGs (0..4 extra frames, split fdAT, default image in/out, sub-rectangles, all colour types, interlaced) x options: "
         "model replay, structural comparison of input and output, every frame decoded by the extracted specification.",
    design="DESIGN.md §3 C10",
-   note=BASE_NOTE + "frame pixel equality is decided per run by the oracle (same partial status as C01). F6 was repaired (fix 0e2fef8).",
+   note=BASE_NOTE + "the frame-pixel theorem is under the zlib oracle assumption; every frame of every output is also decoded per run. F6 was repaired (fix 0e2fef8).",
    technique="Coq proof (induction over the frame list; byte-level round trip of fcTL) + model replay + per-frame spec decode"),
  "C11": dict(
    text="Machine-checked (Properties/C11.v): the constructor never panics and accepts exactly the consistent tuples (iff); the created file is `output` of a pipeline candidate with the given dimensions, so the container/structure theorems of C02 and the policy theorems of C07/C14 apply to it. "
@@ -104,10 +104,10 @@ CLAIMED = {
    technique="Coq proof (closed form of a fault-plan executor; structure of the operation plan) + strace trace conformance + exhaustive syscall-level fault injection"),
  "C13": dict(
    text="Machine-checked (Properties/C13.v): the clock is an oracle of the model, so the pipeline theorems hold for every pattern of answers; never-larger under any landing point; the evaluator returns the minimal completed trial "
-        "whichever trials were skipped. Tied to the code through the deadline hook: for EVERY k in 0..K (K = consultations of the untimed run) the run with expiry at the k-th check is replayed on the model under the recorded clock, "
-        "decoded by the extracted specification and compared in size.",
+        "whichever trials were skipped; FIDELITY for an arbitrary (even non-monotone) clock: the file-to-file theorems of C01/C03 and the frame theorem of C10 instantiated with an explicit clock (C13_fidelity_any_clock, C13_alpha_fidelity_any_clock, C13_frames_any_clock). Tied to the code through the deadline hook: for EVERY k in 0..K (K = consultations of the untimed run) the run with expiry at the k-th check is replayed on the model under the recorded clock, "
+        "decoded by the extracted specification and compared in size; animated images additionally under explicit answer patterns over the frame checks (any subset of frames can see the timeout) with every frame decoded; the executable with an already expired timeout through every routing.",
    design="DESIGN.md §3 C13",
-   note=BASE_NOTE + "fidelity / well-formedness under deadlines inherit the partial status of C01/C02 (decided per run by the oracle at every landing point). The wall clock itself is replaced by the hook.",
+   note=BASE_NOTE + "fidelity under deadlines holds under the hypotheses of C01's file-to-file theorem (zlib oracle, container / input side conditions) and is additionally decided per run by the oracle at every landing point. The wall clock itself is replaced by the hook.",
    technique="Coq proof (universally quantified clock oracle) + exhaustive landing-point enumeration with model replay"),
  "C16": dict(
    text="Machine-checked (Properties/C16.v) on the collector / task protocol of the Evaluator as a labelled transition system (caller, tasks, environment = rayon starting a job), for every number of images and filters and every interleaving: "
